@@ -1,20 +1,30 @@
 pub mod c01;
+pub mod c03;
 pub mod c04;
 pub mod c05;
 pub mod c08;
 pub mod c09;
 pub mod c10;
+pub mod c16;
+pub mod c17;
+pub mod c18;
+pub mod c20;
 
 use crate::Ctx;
 
 pub fn run(ctx: &mut Ctx) -> bool {
     match ctx.prop.as_str() {
         "C01" => c01::run(ctx),
+        "C03" => c03::run(ctx),
         "C04" => c04::run(ctx),
         "C05" => c05::run(ctx),
         "C08" => c08::run(ctx),
         "C09" => c09::run(ctx),
         "C10" => c10::run(ctx),
+        "C16" => c16::run(ctx),
+        "C17" => c17::run(ctx),
+        "C18" => c18::run(ctx),
+        "C20" => c20::run(ctx),
         _ => return false,
     }
     true
